@@ -410,6 +410,13 @@ func C18(c *Ctx) *kf.Report {
 		rep.Add(kf.Mismatch{ID: id, Expected: fmt.Sprintf("line %d", d.Line), Observed: map[string]any{"line": obs[i].line, "output": tailStr(obs[i].out, 400)}, ObsKey: fmt.Sprintf("line%+d", obs[i].line-d.Line), Input: in})
 	}
 	rep.Coverage["diagnostic_scenarios"] = len(diags)
+	rep.Coverage["evaluations"] = len(inputs) + len(diags)
+	if len(diags) > 0 && len(inputs) > 0 {
+		rep.Coverage["samples"] = []any{
+			map[string]any{"lexer_input": inputs[len(inputs)-2].name, "source": tailStr(inputs[len(inputs)-2].src, 600)},
+			map[string]any{"diag_scenario": diags[len(diags)/2].Sc, "expected_line": diags[len(diags)/2].Line, "program": c18Program(diags[len(diags)/2])},
+		}
+	}
 	rep.Coverage["diagnostics_at_expected_line"] = located
 	rep.Coverage["traces_validated_against_impl"] = len(names) + len(diags)
 	rep.Coverage["distinct_nontrivial"] = len(names) - 0 + len(diags)
